@@ -50,6 +50,9 @@ pub fn case_partner_lists() -> Vec<Vec<String>> {
                 pairs.push(vec![format!("{}{}", c, p[0])]);
                 pairs.push(vec![format!("{}x", p[0]), format!("{}y", c)]);
                 pairs.push(vec![format!("ab{}c", p[0]), "xyz".to_string(), format!("AB{}C", c)]);
+                // a second cased letter in front, in both list orders: the two test cases share their lower-cased form
+                pairs.push(vec![format!("A{}", p[0]), format!("A{}", c)]);
+                pairs.push(vec![format!("A{}", c), format!("A{}", p[0])]);
             }
         }
     }
@@ -75,7 +78,7 @@ pub fn run(ctx: &Ctx) {
         ctx.run.mark_nontrivial(hash_case(&pairs[i], &cfg_i));
         check_case(ctx, &pairs[i], &cfg_i);
     });
-    ctx.run.space(json!({"universe": "every scalar with a single-scalar std lower- or upper-case partner p: lists [p,c], [c,p], [\"pc\"], [\"cp\"], [\"px\",\"cy\"] (list order as given)", "sets": pairs.len(), "settings": "i", "cases": pairs.len()}));
+    ctx.run.space(json!({"universe": "every scalar with a single-scalar std lower- or upper-case partner p: lists [p,c], [c,p], [\"pc\"], [\"cp\"], [\"px\",\"cy\"], [\"Ap\",\"Ac\"], [\"Ac\",\"Ap\"] (list order as given)", "sets": pairs.len(), "settings": "i", "cases": pairs.len()}));
     let bases: Vec<Cfg> = [0, R, X, G, E, D, W, ND, NW | NS].iter().map(|b| Cfg::new(I | b)).collect();
     let mut blocks = vec![Block::new(Universe::new("U_adv(A_case)", A_CASE, 2, 2, true), bases.clone(), "i x {{}, r, x, g, e, d, w, D, W+S}")];
     blocks.push(Block::new(Universe::new("U_adv(A_case)", A_CASE, 3, 1, false), bases.clone(), "i x {{}, r, x, g, e, d, w, D, W+S}"));
